@@ -297,8 +297,9 @@ func init() {
 				store.SetStr(k, strings.TrimPrefix(s, "s:"))
 			}
 		}
-		firing := []uint64{uint64(idx) + 1000, 7}
-		resolved := []uint64{uint64(idx) + 2000}
+		// a.N picks one of a few alert sets, so repeat notifications with an identical set occur
+		firing := []uint64{uint64(a.N) + 1000, 7}
+		resolved := []uint64{uint64(a.N) + 2000}
 		// reference: refuse to overwrite an entry from the future; expiry min(retention, expiry)
 		prev := st.model[a.Inst][key]
 		ret := w.retention()
@@ -473,7 +474,7 @@ func c10Gen(seed uint64, tier string) *Plan {
 			}
 		}
 		for c := rng.Range(0, 5); c > 0; c-- {
-			a := Action{At: rng.Dur(time.Second, horizon-time.Second), Kind: "nf_log", Inst: rng.Intn(n), Str: key, D: Pick(rng, []Dur{0, 2 * time.Minute, 20 * time.Minute, 4 * time.Hour})}
+			a := Action{At: rng.Dur(time.Second, horizon-time.Second), Kind: "nf_log", Inst: rng.Intn(n), Str: key, N: rng.Intn(2), D: Pick(rng, []Dur{0, 2 * time.Minute, 20 * time.Minute, 4 * time.Hour})}
 			if rng.Bool(0.5) {
 				a.Labels = map[string]string{"n": fmt.Sprintf("i:%d", c), "f": "f:2.25", "s": "s:abc"}
 			}
